@@ -339,6 +339,7 @@ def _foreign(tr, program, op, trainer):
 
 
 def execute(program):
+    models.COPY_INPUTS = True
     kind = program['model']
     opts = program['opts']
     tk = program.get('trainer_kwargs', {})
@@ -474,7 +475,7 @@ def execute(program):
             if kind == 'cacgmm':
                 # the model's own log_likelihood is the (unweighted-by-
                 # saliency) mixture log-likelihood, weights included
-                own = float(model.log_likelihood(obs))
+                own = float(model.log_likelihood(models._lib(obs)))
                 ref = models.mixture_log_likelihood(kind, model, obs, None, None)
                 tr.count('own_log_likelihood_checks')
                 if np.isfinite(ref) and not abs(own - ref) <= REL_TOL * (1 + abs(ref)):
